@@ -1716,7 +1716,10 @@ pub fn c15(property: &str, seed: u64, index: u64) -> Plan {
     let fps = [30usize, 60, 120][((index / 165) % 3) as usize];
     let per = 1_000_000 / fps as u64;
     let lat_frames = (lat_ms * fps as u64).div_ceil(1000);
-    let mp = k.unsigned_abs() as usize + 2 * lat_frames as usize + 4;
+    // a quarter of the cells run in lockstep: there the input delay is what lets one peer run ahead
+    // (by up to delay - latency in frames - 1) without stalling
+    let lockstep = c.chance(&[12], 250_000);
+    let mp = if lockstep { 0 } else { k.unsigned_abs() as usize + 2 * lat_frames as usize + 4 };
     let start = ms(1500);
     let (s0, s1) = if k >= 0 { (start, start + k as u64 * per) } else { (start + (-k) as u64 * per, start) };
     let phase = c.range(&[1], 0, per - 1);
@@ -1727,10 +1730,20 @@ pub fn c15(property: &str, seed: u64, index: u64) -> Plan {
         drain: true, timeout_ms: None, notify_ms: None };
     let day = 86_400_000u64;
     let base = 1_700_000_000_000u64;
-    let nodes = vec![
+    let mut nodes = vec![
         mk(vec![0], s0, base + c.range(&[2], 0, 2 * day), c.range(&[3], 1000, 2000)),
         mk(vec![1], s1 + phase, base + c.range(&[4], 0, 2 * day), c.range(&[5], 1000, 2000)),
     ];
+    if lockstep && k != 0 {
+        // a lockstep session cannot run ahead before the other side's first inputs are there: both
+        // start level, then the lagging side misses exactly |k| ticks
+        nodes[0].tick.start_us = start;
+        nodes[1].tick.start_us = start + phase;
+        let lag = if k > 0 { 1 } else { 0 };
+        let first_missed = nodes[lag].tick.start_us + 30 * per;
+        // (a tick that falls into a pause happens at the pause's end, and the schedule continues from there)
+        nodes[lag].tick.pauses.push((first_missed - 1, first_missed + k.unsigned_abs() as u64 * per));
+    }
     let links = vec![
         LinkSpec { from: 0, to: 1, base_us: ms(lat_ms), jitter_us: 0, loss_ppm: 0, dup_ppm: 0 },
         LinkSpec { from: 1, to: 0, base_us: ms(lat_ms), jitter_us: 0, loss_ppm: 0, dup_ppm: 0 },
@@ -1749,12 +1762,12 @@ pub fn c15(property: &str, seed: u64, index: u64) -> Plan {
     }
     Plan {
         property: property.to_owned(),
-        scenario: "c15-constant-lead".into(),
+        scenario: if lockstep { "c15-constant-lead-lockstep" } else { "c15-constant-lead" }.into(),
         seed,
         cfg: RunCfg {
             num_players: 2,
             max_prediction: mp,
-            input_delay: *c.pick(&[6], &[0usize, 0, 2]),
+            input_delay: if lockstep { k.unsigned_abs() as usize + lat_frames as usize + 3 } else { *c.pick(&[6], &[0usize, 0, 2]) },
             sparse: false,
             desync_interval: 0,
             fps,
@@ -1782,6 +1795,6 @@ pub fn c15(property: &str, seed: u64, index: u64) -> Plan {
         mode: Mode::Net,
         random_faults_until_us: Some(0),
         exempt_kinds: 0,
-        oracle: OracleCfg { timesync: Some(TimeSyncCheck { lead: k, lead_milli: ((s1 + phase) as i64 - s0 as i64) * 1000 / per as i64, latency_us: ms(lat_ms), measure_from_us: measure_from }), no_disconnect_events: true, ..Default::default() },
+        oracle: OracleCfg { timesync: Some(TimeSyncCheck { lead: k, lead_milli: if lockstep { k as i64 * 1000 + phase as i64 * 1000 / per as i64 } else { ((s1 + phase) as i64 - s0 as i64) * 1000 / per as i64 }, latency_us: ms(lat_ms), measure_from_us: measure_from }), no_disconnect_events: true, ..Default::default() },
     }
 }
